@@ -34,7 +34,7 @@ type c07Desc struct {
 	EventKB int            `json:"event_kib,omitempty"` // pad every event to this size (needed by the step next-noread)
 }
 
-var c07RtSteps = []string{"next", "next", "next", "respond", "respond", "respond-stale", "respond-garbage", "respond-twice", "respond-oversize", "error", "error-badtype", "initerror", "restorenext", "two-next", "half-body", "half-body-stall", "unknown-route", "bad-method", "ext-register", "stall", "short-stall", "exit0", "exit1", "sigsegv", "ignore-term"}
+var c07RtSteps = []string{"next", "next", "next", "respond", "respond", "respond-stale", "respond-garbage", "respond-twice", "respond-oversize", "error", "error-badtype", "initerror", "restorenext", "two-next", "half-body", "half-body-stall", "unknown-route", "bad-method", "ext-register", "stall", "short-stall", "exit0", "exit1", "sigsegv", "ignore-term", "idle-exit"}
 var c07ExtSteps = []string{"register", "register", "register-bad", "register-twice", "next", "next", "next-badid", "next-noid", "initerror", "exiterror", "rt-next", "rt-respond", "stall", "short-stall", "exit0", "exit1", "sigkill", "ignore-term", "unknown-route"}
 
 func genC07(tier string, seed int64) []Case {
@@ -71,6 +71,18 @@ func genC07(tier string, seed int64) []Case {
 		}
 		dd := d
 		cases = append(cases, Case{ID: "C07/" + d.Salt, Class: fmt.Sprintf("n%d", d.NExt), Desc: d, Timeout: 150 * time.Second, Run: func(c *Ctx) { runC07(c, dd) }})
+	}
+	// a process that finishes its invocation, parks in next and dies while the environment is idle
+	for i, progs := range [][][]string{
+		{{"next", "idle-exit"}, {"next", "respond"}, {"next", "respond"}},
+		{{"next", "respond", "next", "idle-exit"}, {"next", "idle-exit"}, {"next", "respond"}},
+	} {
+		d := c07Desc{Salt: fmt.Sprintf("idle-exit-%d", i), NExt: i, Faulty: 3, T: 300, Delays: map[string]int{}, Rt: progs}
+		for e := 0; e < d.NExt; e++ {
+			d.Ext = append(d.Ext, [][]string{{"register", "next", "next", "next"}, {"register", "next", "next"}, {"register", "next", "next"}})
+		}
+		dd := d
+		cases = append(cases, Case{ID: "C07/" + d.Salt, Class: "idle-exit", Desc: d, Timeout: 150 * time.Second, Run: func(c *Ctx) { runC07(c, dd) }})
 	}
 	// a client that asks for the (large) event again on a second connection and never reads the answer
 	for i, progs := range [][][]string{
@@ -215,6 +227,22 @@ func runC07(c *Ctx, d c07Desc) {
 							fault(p, s)
 							pt.Respond(staleID, []byte("x"), nil)
 						}
+					case "idle-exit":
+						// finish the current invocation properly, park in next, and die while the environment is idle
+						if cur != "" {
+							b := []byte("resp-from-faulty-" + p.Name)
+							post(cur, b)
+							pt.Respond(cur, b, nil)
+							cur = ""
+						}
+						go pt.Next()
+						for dl := time.Now().Add(2 * time.Second); time.Now().Before(dl) && w.E.RuntimeState() != "Ready" && p.Ctx.Err() == nil; {
+							time.Sleep(200 * time.Microsecond)
+						}
+						time.Sleep(15 * time.Millisecond)
+						fault(p, s)
+						res <- vh.Exit{Code: 1}
+						return
 					case "respond-stale":
 						fault(p, s)
 						pt.Respond(staleID, []byte("stale"), nil)
@@ -468,7 +496,19 @@ func runC07(c *Ctx, d c07Desc) {
 	}
 	var recs []rec
 	consecutiveOK := 0
+	hasIdleExit := false
+	for _, prog := range d.Rt {
+		for _, st := range prog {
+			if st == "idle-exit" {
+				hasIdleExit = true
+			}
+		}
+	}
 	for i := 0; i < 16 && consecutiveOK < 3; i++ {
+		if hasIdleExit && i > 0 {
+			// leave the environment idle for a moment between invocations (a process may die in that gap)
+			time.Sleep(40 * time.Millisecond)
+		}
 		payload := []byte(fmt.Sprintf("event-%s-%d", d.Salt, i))
 		if d.EventKB > 0 {
 			payload = append(payload, bytes.Repeat([]byte{'.'}, d.EventKB*1024-len(payload))...)
